@@ -347,6 +347,10 @@ class BusCookieAuthenticator :
 
     def _step_two(self, response):
         self._delete_cookie()
+        self.cookieId = None  # nothing left for cancel() to delete
+        if isinstance(response, str):
+            # BusAuthenticator hands over the decoded response
+            response = response.encode('ascii')
         hash_str = None
         shash = 1
         try:
